@@ -372,6 +372,9 @@ def run_C13(ctx):
         # the lexer model (total by construction, fuel |input|+1 proved sufficient) against the real lexer on the same texts
         import lexmodel
         ctx.extra['lexer_model'] = lexmodel.compare(ctx, [b for (_, b) in texts], paths, 'C13')
+        # the parser model (every loop on fuel; it must never run out of it) against the real parser's AST on the same texts
+        import parsemodel
+        ctx.extra['parser_model'] = parsemodel.compare(ctx, [b for (_, b) in texts], paths, label='C13')
         # the real CLI in separate processes on a sample (process-level: exit, no hang)
         rnd = random.Random(ctx.seed + 77)
         sample = [i for i, (n, _) in enumerate(texts) if n.startswith('t')] + rnd.sample(range(len(texts)), min(len(texts), 60 if ctx.quick else 600))
